@@ -80,6 +80,10 @@ class Identifier(ASTNode):
 
         if path_str and not parts:
             parts = path_str_to_parts(path_str)
+            if not parts:
+                # a name that consists of dots only ("."): it is one part, an Identifier without parts can not be
+                # printed or copied
+                parts = [path_str]
         assert isinstance(parts, list)
         self.parts = parts
 
